@@ -41,6 +41,8 @@ func (s *Store[H]) OnDelete(fn func(context.Context, uint64) error) {
 var (
 	deleteRangeParallelThreshold uint64 = 10000
 	errDeleteTimeout                    = errors.New("delete timeout")
+	// errNothingToDelete is what deleteSingle reports for a height that holds no header
+	errNothingToDelete = errors.New("no header to delete")
 )
 
 // deleteSingle deletes a single header from the store,
@@ -61,6 +63,11 @@ func (s *Store[H]) deleteSingle(
 		if h := s.pending.GetByHeight(height); !h.IsZero() {
 			hash, err = h.Hash(), nil
 		}
+	}
+	if errors.Is(err, datastore.ErrNotFound) {
+		// told apart from every other error: what a handler or the datastore fails with below
+		// may wrap ErrNotFound as well and is a failure, not a missing header
+		return fmt.Errorf("hash by height %d: %w", height, errNothingToDelete)
 	}
 	if err != nil {
 		return fmt.Errorf("hash by height %d: %w", height, err)
@@ -108,7 +115,7 @@ func (s *Store[H]) deleteSequential(
 
 	for height := from; height < to; height++ {
 		err := s.deleteSingle(ctx, height, onDelete)
-		if errors.Is(err, datastore.ErrNotFound) {
+		if errors.Is(err, errNothingToDelete) {
 			missing++
 			log.Debugw("attempt to delete header that's not found", "height", height)
 		} else if err != nil {
@@ -173,7 +180,7 @@ func (s *Store[H]) deleteParallel(ctx context.Context, from, to uint64) (uint64,
 		for height := range jobCh {
 			last.height = height
 			last.err = s.deleteSingle(workerCtx, height, onDelete)
-			if errors.Is(last.err, datastore.ErrNotFound) {
+			if errors.Is(last.err, errNothingToDelete) {
 				// not a failure of the worker: the header is just not there (anymore)
 				last.err = nil
 				last.missing++
